@@ -75,7 +75,7 @@ def slimForSubSlim (n : Nat) (sub : List Nat) : List Nat :=
 
 /-- start of pixel `k`'s block in the over-sampled ordering: `Σ_{j<k} sub_j²`. -/
 def offset (sub : List Nat) (k : Nat) : Nat :=
-  ((List.range k).map fun j => sub.getD j 0 * sub.getD j 0).foldl (· + ·) 0
+  ((List.range k).map fun j => sub.getD j 0 * sub.getD j 0).sum
 
 /-- pixel `k`'s own sub-values. -/
 def block (sub : List Nat) (a : List α) (k : Nat) : List α :=
@@ -312,5 +312,40 @@ def decorated (f : α × α → α) (m : Mask) (g : Geom α) (gridValues : List 
   else gridValues.map f
 
 end Impl
+
+/-! ## Spec layer of the iterative scheme -/
+namespace Spec
+
+/-- the code's per-pixel agreement rule between the previous level's value `lo` and the current
+    level's value `hi`: the fractional accuracy (if a threshold is set) is not below the threshold
+    and the absolute difference (if a tolerance is set) does not exceed it. -/
+def converged (fr rel : Option α) (lo hi : α) : Bool :=
+  (match fr with
+    | some t => !decide (Impl.fracAccuracy lo hi < t)
+    | none => true) &&
+  (match rel with
+    | some t => !decide (t < Impl.absDiff lo hi)
+    | none => true)
+
+/-- the value the stopping rule selects from one pixel's column of level values `vi 0, vi 1, …`:
+    scanning levels `ℓ, ℓ+1, …, ℓ+r-1`, the first one that agrees with its predecessor; else level
+    `ℓ + r` (the last sub-size). -/
+def chosenFrom (conv : α → α → Bool) (vi : Nat → α) : (r : Nat) → (ℓ : Nat) → α
+  | 0, ℓ => vi ℓ
+  | r + 1, ℓ => if conv (vi (ℓ - 1)) (vi ℓ) then vi ℓ else chosenFrom conv vi r (ℓ + 1)
+
+/-- the same selection stated with `find?`: the first level `ℓ ∈ [1, n-1]` agreeing with level
+    `ℓ-1`, otherwise level `n`. -/
+def iterValue (conv : α → α → Bool) (vi : Nat → α) (n : Nat) : α :=
+  match (List.range' 1 (n - 1)).find? (fun l => conv (vi (l - 1)) (vi l)) with
+  | some l => vi l
+  | none => vi n
+
+/-- level values of the pixel centred on `P` for a user function `f` and schedule `steps`:
+    level 0 is `f P`, level `ℓ ≥ 1` the mean of `f` over the `steps[ℓ-1]²` sub-centres. -/
+def levelValue (f : α × α → α) (g : Geom α) (steps : List Nat) (P : α × α) (l : Nat) : α :=
+  if l = 0 then f P else cellMean f g P (steps.getD (l - 1) 0)
+
+end Spec
 end
 end Model
